@@ -27,6 +27,14 @@ pub fn run(o: &Opts) -> i32 {
     for (d, n) in &r.quantities { writeln!(w, "quantity {} {}", dim_hex(d), hex(n)).unwrap(); }
     for (d, n) in &r.decomposition_units { writeln!(w, "decomp {} {}", dim_hex(d), hex(n)).unwrap(); }
     for n in r.substances.keys() { writeln!(w, "substance {}", hex(n)).unwrap(); }
+    for (n, s) in &r.substances {
+        writeln!(w, "subst {} {} {}", hex(n), fmt_numeric(&s.amount.value), dim_hex(&s.amount.unit)).unwrap();
+        for (pn, p) in &s.properties.properties {
+            writeln!(w, "prop {} {} {} {} {} {} {} {}", hex(n), hex(pn), fmt_numeric(&p.input.value), dim_hex(&p.input.unit), hex(&p.input_name),
+                fmt_numeric(&p.output.value), dim_hex(&p.output.unit), hex(&p.output_name)).unwrap();
+        }
+    }
+    for (sym, n) in &r.substance_symbols { writeln!(w, "symbol {} {}", hex(sym), hex(n)).unwrap(); }
     for n in r.substance_symbols.keys() { writeln!(w, "substance {}", hex(n)).unwrap(); }
     for (n, c) in &r.categories { writeln!(w, "category {} {}", hex(n), hex(c)).unwrap(); }
     for (c, n) in &r.category_names { writeln!(w, "catname {} {}", hex(c), hex(n)).unwrap(); }
